@@ -42,6 +42,15 @@ def mk(depth, fl, t, cuts, kind):
     return (line(depth, fl, ops), {"kind": kind, "text": t, "cuts": list(cuts), "nparts": len(parts), "flags": fl})
 
 
+def mkl(depth, fl, t, cuts, kind, loc):
+    """the same under a caller's comma-decimal locale (process-wide G / this thread T): how the input is split must
+    not matter there either"""
+    l, m = mk(depth, fl, t, cuts, kind + "-locale" + loc)
+    head, ops = l.rsplit(" ", 1)
+    m["locale"] = True
+    return (head + " L" + loc + ";" + ops + ";LC", m)
+
+
 def gen(rng, tier):
     ntexts = 500 if tier == "quick" else 12000
     out = []
@@ -82,6 +91,12 @@ def gen(rng, tier):
                 cutsets.append(jsongen.partitions(rng, n, rng.choice([3, 4])))
         for cuts in cutsets:
             out.append(mk(depth, fl, t, cuts, kind))
+        if cutsets and (b"." in t or b"e" in t or b"E" in t) and rng.random() < 0.5:
+            # numbers with a fraction or exponent under a comma-decimal caller locale, cut inside / next to the number
+            pos = [i for i in range(1, n) if t[i - 1:i] in b".eE0123456789+-" or t[i:i + 1] in b".eE0123456789+-"]
+            for _ in range(3):
+                c = rng.choice(pos) if pos and rng.random() < 0.8 else rng.randrange(1, n)
+                out.append(mkl(depth, fl, t, [c], kind, rng.choice("GT")))
     # long tokens (numbers, strings, literals runs, comments of 1000..5000 bytes): limits that look only at the part
     # scanned in the current call show up when no single call sees the whole token
     nlong = 24 if tier == "quick" else 400
@@ -178,6 +193,8 @@ def oracle(line_, meta, impl):
     if "VALUE-WITH-ERROR" in impl:
         return ("value-with-error", impl[:100])
     steps = parse_obs(impl)
+    if meta.get("locale"):
+        steps = [x for x in steps if x != ("locale",)]
     if meta.get("stream"):
         if len(steps) != 3:
             return ("malformed", "unexpected driver output: " + impl[:100])
